@@ -231,6 +231,7 @@ type World struct {
 	ViaHTTP       bool
 	lastHTTP      *HTTPFacts
 	lastOKReq     *HTTPFacts
+	cachedReqs    []*HTTPFacts // every swap / mint request answered 200 since the mint process started (NUT-19 cache contents)
 	lastFailedReq *HTTPFacts
 	okReqs        map[string]bool
 	LastEv        string
@@ -591,6 +592,9 @@ func (w *World) emit(ev string, a, r map[string]any) *Event {
 		if f.Path == "/v1/swap" || f.Path == "/v1/mint/bolt11" {
 			if f.Status == 200 {
 				w.lastOKReq = f
+				if !f.CacheHit {
+					w.cachedReqs = append(w.cachedReqs, f)
+				}
 			} else {
 				w.lastFailedReq = f
 			}
